@@ -241,7 +241,7 @@ struct Plan {
     base_cap: usize,
 }
 
-const DIRECTED: usize = 6;
+const DIRECTED: usize = 11;
 
 fn plan(tier_quick: bool, items: &[Item]) -> Plan {
     let dev = std::env::var("VERIF_C10_MUTANTS").ok().and_then(|s| s.parse::<usize>().ok());
@@ -273,9 +273,9 @@ fn directed_case(items: &[Item], d: usize) -> Option<Case> {
     };
     match d {
         0 => {
-            let mut deep = vec![0x81u8; 200_000];
+            let mut deep = vec![0xC1u8; 200_000];
             deep.push(0);
-            mk("store:cbor-deep", storegen::apply_edit(store, &root, claim.start, &Edit::Replace(jumbf::make_box(b"cbor", &deep))))
+            mk("store:cbor-deep", storegen::apply_edit(store, &root, target.start, &Edit::Replace(jumbf::make_box(b"cbor", &deep))))
         }
         1 => {
             // first text key of the assertion map declared 0xFFFFFFFF bytes long (same length, in place)
@@ -288,7 +288,18 @@ fn directed_case(items: &[Item], d: usize) -> Option<Case> {
             v[at + 1..at + 5].copy_from_slice(&[0xFF; 4]);
             mk("store:cbor-head", v)
         }
+        9 | 10 => {
+            // nested tags: the decoder's depth limit covers arrays and maps only
+            let pat = if d == 9 { "c2pa.actions" } else { "c2pa.signature" };
+            let b = all.iter().find(|b| &b.typ == b"cbor" && b.path.contains(pat))?;
+            let mut deep = vec![0xC1u8; 100_000];
+            deep.push(0);
+            mk("store:cbor-deep", storegen::apply_edit(store, &root, b.start, &Edit::Replace(jumbf::make_box(b"cbor", &deep))))
+        }
         2 => mk("store:cbor-huge-len", storegen::apply_edit(store, &root, claim.start, &Edit::Replace(jumbf::make_box(b"cbor", &[0x9A, 0x02, 0xFA, 0xF0, 0x80, 1, 2, 3])))),
+        6 => mk("store:cbor-huge-len", storegen::apply_edit(store, &root, claim.start, &Edit::Replace(jumbf::make_box(b"cbor", &[0x5A, 0x02, 0xFA, 0xF0, 0x80, 1, 2, 3])))),
+        7 => mk("store:cbor-huge-len", storegen::apply_edit(store, &root, target.start, &Edit::Replace(jumbf::make_box(b"cbor", &[0x7A, 0x02, 0xFA, 0xF0, 0x80, 1, 2, 3])))),
+        8 => mk("store:cbor-huge-len", storegen::apply_edit(store, &root, target.start, &Edit::Replace(jumbf::make_box(b"cbor", &[0xBA, 0x02, 0xFA, 0xF0, 0x80, 1, 2, 3])))),
         3 => {
             let mut rep = Vec::new();
             for _ in 0..45_000 {
@@ -753,7 +764,11 @@ fn run_shard(exe: &Path, corpus: &Path, scratch: &Path, tag: &str, idxs: &[usize
 /// chosen by content sniffing (Reader::with_stream: the base format's family) or by the hint alone
 /// (all other entry points).  The entry point and the literal hint stay in the witness.
 fn cause(_fmt: &str, kind: &str) -> String {
-    kind.split('+').next().unwrap_or(kind).to_string()
+    match kind.split('+').next().unwrap_or(kind) {
+        // both mutators put an oversized declared length into a CBOR head
+        "store:cbor-head" | "store:cbor-huge-len" => "store:cbor-declared-length".to_string(),
+        k => k.to_string(),
+    }
 }
 fn fmt_family(fmt: &str) -> &'static str {
     match hint_family(fmt) {
